@@ -2838,7 +2838,7 @@ fn enum_field_default(xs: &mut State) -> Xresult {
         other => return enum_flow_error(other.map(|x| &*x)),
     };
     let val = if let Some((_, prev)) = e.fields.last() {
-        let next = prev + 1;
+        let next = prev.checked_add(1).ok_or(Xerr::IntegerOverflow)?;
         e.fields.push((shortname.clone(), next));
         next
     } else {
